@@ -11,9 +11,9 @@ RULE = ('random scripted sessions (spot/futures, 1-2 symbols, trading timeframes
         'distinct = distinct sequence of (order type, side, fill/cancel) per session; non-trivial = the session has at least '
         'one resting-order fill.')
 ASSUMPTIONS = ['the polyline O-L-H-C / O-H-L-C of the open-normalised minute candle is the reference intra-minute path',
-               'fast simulator: judged per minute range and per chunk range only (no intra-minute path)',
+               'fast simulator: the same polyline oracle minute by minute inside each chunk, plus per-chunk range checks',
                'minutes in which a session aborted with an exception are not judged']
-MIN_OBS = {'resting_fills': 500, 'resting_fills_fast': 100, 'fills_at_candle_extreme_or_open_close': 30,
+MIN_OBS = {'fast_minute_end_evals': 5000, 'resting_fills': 500, 'resting_fills_fast': 100, 'fills_at_candle_extreme_or_open_close': 30,
            'fills_inside_gap': 20, 'market_fills': 100, 'minute_end_evals_with_resting': 1000, 'chunk_end_evals': 500}
 
 
